@@ -15,7 +15,9 @@
 //   - valid UTF-8 text: Replace(text,"#") == text[0:R1.lo] #^c1 text[R1.hi:R2.lo] #^c2 … with
 //     1 <= ci <= occurrences(Ri) — the latitude of the property text; Replace(text,"") == the
 //     uncovered bytes in order;
-//   - text not valid UTF-8: only "returns without panicking" is demanded.
+//   - text not valid UTF-8: Replace is judged on bytes like any text (covered bytes removed, all
+//     other bytes kept in order); ReplaceWithMask rune by rune, an invalid byte counting as one
+//     rune (U+FFFD) whose spelling in the output is not prescribed.
 package main
 
 import (
@@ -76,7 +78,8 @@ var assumptions = []string{
 	"small-scope: bounds per family are listed in coverage.sections; outside: longer patterns, larger pattern sets, longer texts",
 	"patterns are valid UTF-8; replacement is \"#\" (in no alphabet, so the output parses unambiguously) or \"\"; mask is '*' or '＊'",
 	"Replace may emit between 1 and #occurrences copies of the replacement per maximal covered region",
-	"on text that is not valid UTF-8 only 'returns without panicking' is demanded",
+	"text that is not valid UTF-8: Replace is judged byte-wise like any other text; ReplaceWithMask rune by rune with every invalid byte counting as one rune (the bytes that spell an unmasked invalid rune in the output are not prescribed)",
+	"the trie is queried after BuildFailureLinks (as in C05); Replace on a trie that was never built is outside",
 	"a case is one (family, pattern set, insertion history, text) with Replace(\"#\"), Replace(\"\") and ReplaceWithMask",
 }
 
@@ -183,6 +186,31 @@ func parseReplace(out, text string, regs []triex.Region) bool {
 	return out[pos:] == text[prev:]
 }
 
+// longTok: a replacement longer than every match (5 bytes, one multi-byte rune), so that the output
+// outgrows the input; none of its bytes occurs in a text.
+const longTok = "[＃]"
+
+func parseReplaceTok(out, text string, regs []triex.Region, tok string) bool {
+	pos, prev := 0, 0
+	for _, rg := range regs {
+		seg := text[prev:rg.Lo]
+		if !strings.HasPrefix(out[pos:], seg) {
+			return false
+		}
+		pos += len(seg)
+		c := 0
+		for strings.HasPrefix(out[pos:], tok) {
+			c++
+			pos += len(tok)
+		}
+		if c < 1 || c > rg.Occ {
+			return false
+		}
+		prev = rg.Hi
+	}
+	return out[pos:] == text[prev:]
+}
+
 func validClass(o *triex.Oracle, t *triex.Text) string {
 	if !t.Valid {
 		return o.TextClass(t)
@@ -200,6 +228,7 @@ func visit(sh *triex.Shard, v *triex.Visit) {
 	)
 	callHash := func() { out = tr.Replace(text, "#") }
 	callEmpty := func() { out = tr.Replace(text, "") }
+	callLong := func() { out = tr.Replace(text, longTok) }
 	callMask := func() { out = tr.ReplaceWithMask(text, mask) }
 	setup := func() string { return "func TestReplay(t *testing.T) {\n" + triex.GoSetup(v.Set, v.Hist) }
 	for ti := range v.Fam.Texts {
@@ -270,6 +299,25 @@ func visit(sh *triex.Shard, v *triex.Visit) {
 			}
 		}
 
+		// ---- Replace with a replacement longer than the matches (the output outgrows the input)
+		if len(regs) > 0 {
+			sh.Ev++
+			if triex.Try(callLong) {
+				sh.Col.Report("Replace|panic|"+validClass(o, t), v.Size(text), func() (string, any, string) {
+					site, st := triex.PanicInfo(func() { tr.Replace(text, longTok) })
+					return fmt.Sprintf("Replace(%q, %q) panicked at %s", text, longTok, site),
+						v.Case("text", text, map[string]any{"repl": longTok, "stack": st}),
+						setup() + fmt.Sprintf("\t_ = tr.Replace(%q, %q) // panics\n}", text, longTok)
+				})
+			} else if !parseReplaceTok(out, text, regs, longTok) {
+				sh.Col.Report("Replace|long-replacement|"+o.TextClass(t), v.Size(text), func() (string, any, string) {
+					return fmt.Sprintf("Replace(%q, %q) = %q, want %s with %q for # (between 1 and #occurrences copies per maximal covered region, every other byte kept)", text, longTok, out, shape(text, regs), longTok),
+						v.Case("text", text, map[string]any{"repl": longTok, "got": fmt.Sprintf("%q", out), "want_shape": shape(text, regs)}),
+						setup() + fmt.Sprintf("\tt.Logf(\"Replace = %%q, want %%s\", tr.Replace(%q, %q), %q)\n\tt.Fail()\n}", text, longTok, shape(text, regs))
+				})
+			}
+		}
+
 		// ---- ReplaceWithMask
 		masks = masks[:1]
 		if o.Multi || !t.ASCII {
@@ -295,7 +343,9 @@ func visit(sh *triex.Shard, v *triex.Visit) {
 			} else {
 				w = maskedBytes(text, mask, regs)
 			}
-			if out != w {
+			// text that is not valid UTF-8 is compared rune by rune (an invalid byte counts as one rune,
+			// U+FFFD): "every other rune is unchanged" does not say which bytes spell it
+			if out != w && (t.Valid || string([]rune(out)) != string([]rune(w))) {
 				kind := "wrong-result"
 				if utf8.RuneCountInString(out) != utf8.RuneCountInString(text) {
 					kind = "rune-count-changed"
